@@ -314,27 +314,31 @@ def jsonAPIFieldError (status title errMsg : Bytes) (field : Json) : Json :=
       (if path.isEmpty then none else some (pathToPointer path)) metaV
   | _ => jsonAPIErrorJson status title [] errMsg none none
 
-/-- the `errors.As(err, &detailed)` branch of `JSONAPI.Format`: one error per element when the details
-    marshal to a JSON array, else (or when that gave nothing) one generic error carrying the details as meta -/
+/-- `if len(apiErrors) == 0 { apiErrors = []jsonAPIError{d} }` -/
+def orSingle (l : List Json) (d : Json) : List Json := if l.isEmpty then [d] else l
+
+/-- "It's a slice - convert each field error": nothing unless the details marshal to a JSON array -/
+def jsonAPIFieldErrors (status title errMsg : Bytes) : Json → List Json
+  | .arr xs => xs.map (jsonAPIFieldError status title errMsg)
+  | _ => []
+
+/-- the `errors.As(err, &detailed)` branch of `JSONAPI.Format`: one error per element of the details
+    slice; if that gave nothing, one generic error carrying the details as meta -/
 def jsonAPIFromDetails (status title errMsg : Bytes) (det : Json) : List Json :=
-  let fromFields := match det with
-    | .arr xs => xs.map (jsonAPIFieldError status title errMsg)
-    | _ => []
-  if fromFields.isEmpty then
-    [jsonAPIErrorJson status title [] errMsg none (some (.obj [(kDetails, det)]))]
-  else fromFields
+  orSingle (jsonAPIFieldErrors status title errMsg det)
+    (jsonAPIErrorJson status title [] errMsg none (some (.obj [(kDetails, det)])))
+
+/-- the `apiErrors` slice before the final guard -/
+def jsonAPIErrorsRaw (env : Env) (f : Fmt) (e : Err) : List Json :=
+  match asDetails e with
+  | some det => jsonAPIFromDetails (natBytes (determineStatus f e)) (env.stText (determineStatus f e)) (msgOf env.stText e) det
+  | none => [jsonAPIErrorJson (natBytes (determineStatus f e)) (env.stText (determineStatus f e)) ((asCode e).getD [])
+              (msgOf env.stText e) none none]
 
 /-- the `apiErrors` slice at the end of `JSONAPI.Format` (with its final "be safe" guard) -/
 def jsonAPIErrors (env : Env) (f : Fmt) (e : Err) : List Json :=
-  let st := determineStatus f e
-  let status := natBytes st
-  let title := env.stText st
-  let errMsg := msgOf env.stText e
-  let apiErrors : List Json :=
-    match asDetails e with
-    | some det => jsonAPIFromDetails status title errMsg det
-    | none => [jsonAPIErrorJson status title ((asCode e).getD []) errMsg none none]
-  if apiErrors.isEmpty then [jsonAPIErrorJson status title [] errMsg none none] else apiErrors
+  orSingle (jsonAPIErrorsRaw env f e)
+    (jsonAPIErrorJson (natBytes (determineStatus f e)) (env.stText (determineStatus f e)) [] (msgOf env.stText e) none none)
 
 /-- `JSONAPI.Format` -/
 def formatJSONAPI (env : Env) (f : Fmt) (e : Err) : FResp :=
